@@ -1,2 +1,93 @@
-(* C09 - placeholder while the proofs are being written *)
-From Adapt Require Import Num.Qaux Rect.RectBase Rect.ScanlineModel Rect.EntailModel Rect.RemoveOverlapsModel.
+(* C09 - libvpsc: removeoverlaps leaves no overlap and changes no size; generateX/YConstraints are acyclic and entail
+   non-overlap.  Only statements closed by `exact`; the proofs live in Rect/*.v and are about the hand-written models
+   Rect/ScanlineModel.v, Rect/RemoveOverlapsModel.v, Rect/RectBase.v (tied to /repo by the correspondence runs of
+   checks/c09.py) and the verified checkers of Rect/EntailModel.v (run on every real constraint set). *)
+From Adapt Require Import Num.Qaux Rect.RectBase Rect.ScanlineModel Rect.EntailModel Rect.RemoveOverlapsModel
+  Rect.Entail Rect.Scanline Rect.RemoveOverlaps.
+Local Open Scope Q_scope.
+
+(* every generated constraint graph is a DAG: both generators, both modes, both CmpNodePos variants, any address oracle *)
+Theorem C09_gen_acyclic :
+  forall (addr : nat -> nat) (ids : list Z) (xb yb : Q) (rs : list rect),
+    (forall b cs, generateXConstraints (cmp_node_pos_addr addr) xb yb rs b = Some cs -> acyclic cs) /\
+    (forall cs, generateYConstraints (cmp_node_pos_addr addr) xb yb rs = Some cs -> acyclic cs) /\
+    (forall b cs, generateXConstraints (cmp_node_pos_id ids addr) xb yb rs b = Some cs -> acyclic cs) /\
+    (forall cs, generateYConstraints (cmp_node_pos_id ids addr) xb yb rs = Some cs -> acyclic cs).
+Proof. exact gen_acyclic. Qed.
+Print Assumptions C09_gen_acyclic.
+
+(* ... and every constraint goes forward in the order CmpNodePos defines *)
+Theorem C09_gen_forward mklt (H : forall pos, strict (mklt pos)) xb yb rs :
+  (forall b cs, generateXConstraints mklt xb yb rs b = Some cs ->
+     Forall (fun c => mklt (posX xb rs) (cl c) (cr c) = true) cs /\ acyclic cs) /\
+  (forall cs, generateYConstraints mklt xb yb rs = Some cs ->
+     Forall (fun c => mklt (posY yb rs) (cl c) (cr c) = true) cs /\ acyclic cs).
+Proof. exact (conj (gen_acyclic_X mklt H xb yb rs) (gen_acyclic_Y mklt H xb yb rs)). Qed.
+Print Assumptions C09_gen_forward.
+
+(* the generators always return (the fuelled sort never runs out of fuel) *)
+Theorem C09_generators_total mklt xb yb rs :
+  (forall b, generateXConstraints mklt xb yb rs b <> None) /\ generateYConstraints mklt xb yb rs <> None.
+Proof. exact (conj (generateXConstraints_total mklt xb yb rs) (generateYConstraints_total mklt xb yb rs)). Qed.
+Print Assumptions C09_generators_total.
+
+(* the verified certificate: if entail_check accepts, every placement satisfying the constraints has no overlapping pair *)
+Theorem C09_entail_check_sound lo hi len n cs :
+  entail_check lo hi len n cs = true ->
+  forall p, sat p cs ->
+  forall i j, (i < n)%nat -> (j < n)%nat -> i <> j -> lo i < hi j -> lo j < hi i ->
+    p i + (len i + len j) / 2 <= p j \/ p j + (len i + len j) / 2 <= p i.
+Proof. exact (entail_check_sound lo hi len n cs). Qed.
+Print Assumptions C09_entail_check_sound.
+
+Theorem C09_entail_no_overlap xb yb rs cs :
+  (entail_checkY xb yb rs cs = true -> forall p, sat p cs ->
+     forall i j, (i < length rs)%nat -> (j < length rs)%nat -> i <> j ->
+       ~ overlaps_pos xb yb (moveCentreY yb (nthr rs i) (p i)) (moveCentreY yb (nthr rs j) (p j))) /\
+  (entail_checkX xb yb rs cs = true -> forall p, sat p cs ->
+     forall i j, (i < length rs)%nat -> (j < length rs)%nat -> i <> j ->
+       ~ overlaps_pos xb yb (moveCentreX xb (nthr rs i) (p i)) (moveCentreX xb (nthr rs j) (p j))).
+Proof. exact (conj (entail_checkY_sound xb yb rs cs) (entail_checkX_sound xb yb rs cs)). Qed.
+Print Assumptions C09_entail_no_overlap.
+
+Theorem C09_topo_check_sound rank cs : topo_check rank cs = true -> acyclic cs.
+Proof. exact (topo_check_sound rank cs). Qed.
+Print Assumptions C09_topo_check_sound.
+
+(* moveCentreX / moveCentreY keep width and height exactly *)
+Theorem C09_sizes_preserved xb yb r p :
+  width xb (moveCentreX xb r p) == width xb r /\ height yb (moveCentreX xb r p) == height yb r /\
+  width xb (moveCentreY yb r p) == width xb r /\ height yb (moveCentreY yb r p) == height yb r.
+Proof. exact (sizes_preserved xb yb r p). Qed.
+Print Assumptions C09_sizes_preserved.
+
+Theorem C09_sizes_preserved_removeoverlaps mklt solve
+  (Hs : forall d w cs, length (solve d w cs) = length d) xB yB rs fixed third r :
+  removeoverlaps mklt solve xB yB rs fixed third = Some r -> Forall2 same_size rs (ro_rects r).
+Proof. exact (sizes_preserved_removeoverlaps mklt solve Hs xB yB rs fixed third r). Qed.
+Print Assumptions C09_sizes_preserved_removeoverlaps.
+
+(* the border globals end with their initial values on the non-throwing path *)
+Theorem C09_borders_restored mklt solve xB yB rs fixed third r :
+  removeoverlaps mklt solve xB yB rs fixed third = Some r -> ro_xBorder r = xB /\ ro_yBorder r = yB.
+Proof. exact (borders_restored mklt solve xB yB rs fixed third r). Qed.
+Print Assumptions C09_borders_restored.
+
+(* PARTIAL (named so): no overlap after removeoverlaps is proved from (i) the solver's answer satisfying the constraints
+   of the last generating pass (C01's business) and (ii) the entail_check certificate for that pass, which the check
+   evaluates on every instance.  Missing for an unconditional statement: the Dwyer-Marriott-Stuckey chain lemma
+   (genY_entails_no_overlap: entail_check always succeeds on generated sets), not proved here. *)
+Theorem C09_pipeline_partial mklt solve xB yB rs fixed third r :
+  removeoverlaps mklt solve xB yB rs fixed third = Some r ->
+  exists rsl csl pl,
+    (if third
+     then generateXConstraints mklt (xB + EXTRA_GAP) yB rsl false = Some csl /\
+          ro_rects r = move_all (moveCentreX (xB + EXTRA_GAP)) rsl pl /\
+          (length pl = length rsl -> entail_checkX (xB + EXTRA_GAP) yB rsl csl = true ->
+           sat (fun i => nth i pl 0) csl -> no_overlap xB yB (ro_rects r))
+     else generateYConstraints mklt xB (yB + EXTRA_GAP) rsl = Some csl /\
+          ro_rects r = move_all (moveCentreY (yB + EXTRA_GAP)) rsl pl /\
+          (length pl = length rsl -> entail_checkY xB (yB + EXTRA_GAP) rsl csl = true ->
+           sat (fun i => nth i pl 0) csl -> no_overlap xB yB (ro_rects r))).
+Proof. exact (C09_pipeline mklt solve xB yB rs fixed third r). Qed.
+Print Assumptions C09_pipeline_partial.
